@@ -47,8 +47,11 @@ Theorem C11_fresh_dispenser_ok : forall toks,
 Proof. exact init_cursor_ok. Qed.
 Print Assumptions C11_fresh_dispenser_ok.
 
-(* The index obligations regenerated from the setup functions of the current tree: their number
-   (each is a lemma of Gen_C11.v proved by lia; unprovable ones are removed and reported). *)
-Theorem C11_index_obligations_regenerated : c11_obligation_count = c11_obligation_count.
-Proof. reflexivity. Qed.
-Print Assumptions C11_index_obligations_regenerated.
+(* The index obligations regenerated from the setup functions of the current tree, as ONE statement:
+   the conjunction of every obligation `0 <= i < len` (or slice bound) under the guards in scope at
+   that source line (Gen_C11.v; `Print c11_all_obligations.` shows them). An obligation that lia
+   cannot prove is taken out of the conjunction by lib/c11.py and reported by the check as a
+   violation (or as a pinned site, lib/c11_pins.json). *)
+Theorem C11_index_obligations_hold : c11_all_obligations.
+Proof. exact c11_all_obligations_hold. Qed.
+Print Assumptions C11_index_obligations_hold.
